@@ -11,9 +11,9 @@ import (
 
 func init() {
 	register(&Rule{
-		ID: "C26",
+		ID:      "C26",
 		Explain: "Decides whole-string matching of the filtered member listing structurally: every format constant that wraps a user pattern before regexp.Compile in the agent's member filter is analysed with regexp/syntax — with an alternation substituted for the verb, the parse must be begin-text · (pattern) · end-text, i.e. the anchors bind the whole pattern for every operator; the compiled expressions are matched against the member's tag value for the requested tag (missing tag ⇒ empty string), its status string and its name; a member is appended only behind every requested test; a compile error returns an error and a nil list before anything is matched.",
-		Run: runC26,
+		Run:     runC26,
 		Mutants: []Mutant{
 			{Name: "anchors-bind-loosely", File: "cmd/serf/command/agent/ipc.go", Func: "func (i *AgentIPC) filterMembers(", Old: "statusRe, err := regexp.Compile(fmt.Sprintf(\"^(?:%s)$\", status))", New: "statusRe, err := regexp.Compile(fmt.Sprintf(\"^%s$\", status))", Expect: "R1"},
 			{Name: "unanchored-name", File: "cmd/serf/command/agent/ipc.go", Func: "func (i *AgentIPC) filterMembers(", Old: "nameRe, err := regexp.Compile(fmt.Sprintf(\"^(?:%s)$\", name))", New: "nameRe, err := regexp.Compile(fmt.Sprintf(\"(?:%s)\", name))", Expect: "R1"},
